@@ -11,6 +11,15 @@ generated request *spec* (never against the bytes on the wire):
            connection.  Every request is judged against its OWN spec; when a request at position >= 2 fails although
            the same spec alone (fresh builder, fresh parser) is recovered exactly, the failure is keyed
            state-leak-across-requests:<field> (headers | query | body | method | path | not-parsed).
+  *-cuts   two-piece delivery: direct-cuts feeds Requester.build() bytes to a fresh Requestant whole and then cut at EVERY
+           position, with one parse() (= one service round) on the first piece alone; loop-cuts writes them to a real
+           http.Server over loopback in two writes with service rounds in between, at the CR|LF of the request line and of
+           a header line, around the head/body boundary, in the body and at two random places.  A delivery that recovers
+           something else than the whole one is keyed recovery-differs-when-split:<field>:<where the cut fell>.
+  queue    2-4 Client.request() calls queued on ONE http.Client before the first service round (with / without qargs=,
+           headers=, method=, path=, a query embedded in the path; client-level default method/path/qargs/headers), then
+           serviced against a loopback http.Server; each request must arrive as documented: values not given are the
+           requester's at the time of the call, a query in the path is merged over the query args of THAT request only.
 
 Recovered and compared: method; requestant.path and unquote(PATH_INFO); the query
 arguments as any WSGI application decodes them (parse_qsl(QUERY_STRING)); every
